@@ -133,44 +133,34 @@ theorem languageList_roundTrip : RoundTrip languageListCodec (fun tags => langua
   have hlt : (joinItems comma items).length < 256 ^ 4 := by
     have : (256 : Nat) ^ 4 = 2 ^ 32 := by decide
     omega
-  generalize hb : joinItems comma items = body at *
-  refine ⟨encNat .network 4 body.length ++ body, ?_, ?_⟩
-  · simp only [languageListCodec, composeLanguageList, h1, bind, Except.bind, hb, composeNum_ok vs4 hlt, pure, Except.pure]
+  refine ⟨Spec.Ssh.string (joinItems comma items), ?_, ?_⟩
+  · simp only [languageListCodec, composeLanguageList, h1, bind, Except.bind, composeNum_ok vs4 hlt, pure, Except.pure,
+      Spec.Ssh.string, Spec.sshString, encNat_network, beBytes_eq_spec]
   · intro s
     simp only [languageListCodec]
     unfold parseLanguageList
-    have htake : (encNat ByteOrder.network 4 body.length ++ body ++ s).take 4 = encNat .network 4 body.length := by
-      rw [List.append_assoc]; exact List.take_left' (encNat_length _ _ _)
-    have hdrop : (encNat ByteOrder.network 4 body.length ++ body ++ s).drop 4 = body ++ s := by
-      rw [List.append_assoc]; exact List.drop_left' (encNat_length _ _ _)
-    rw [htake]
-    have := parseNum_enc (bo := .network) vs4 hlt []
-    rw [List.append_nil] at this
-    rw [this]
+    rw [nameListBody_string _ hl (joinItems_getLast_ne comma items h3) s]
     simp only [bind, Except.bind]
-    by_cases hz : body.length = 0
-    · have hbn : body = [] := List.length_eq_zero_iff.mp hz
-      have htn : items = [] := by
-        cases items with
-        | nil => rfl
-        | cons a r => exact absurd (hb ▸ hbn) (joinItems_ne_nil comma (a :: r) h3 (by simp))
+    have hlen : (Spec.Ssh.string (joinItems comma items)).length = 4 + (joinItems comma items).length := by
+      simp [Spec.Ssh.string, Spec.sshString, Spec.toBytesBE]
+    cases items with
+    | nil =>
       have htags' : tags = [] := by
         cases tags with
         | nil => rfl
-        | cons a r => subst htn; simp at h5
+        | cons a r => simp at h5
       subst htags'
-      simp [hbn, pure, Except.pure]
-    · have hne : items ≠ [] := by
-        intro h; subst h; simp [joinItems] at hb; subst hb; simp at hz
-      have hbeq : (body.length == 0) = false := by simp [hz]
-      simp only [hbeq, Bool.false_eq_true, if_false, hdrop]
-      have htk : (body ++ s).take body.length = body := by simp
-      rw [htk]
+      simp [joinItems, pure, Except.pure, Spec.Ssh.string, Spec.sshString, Spec.toBytesBE]
+    | cons a r =>
+      have hne := joinItems_ne_nil comma (a :: r) h3 (by simp)
+      have hemp : (joinItems comma (a :: r)).isEmpty = false := by
+        simpa [List.isEmpty_iff] using hne
+      simp only [hemp, Bool.false_eq_true, if_false]
       unfold splitItems
-      have hasc : isAscii body = true := hb ▸ isAscii_join items h4
+      have hasc : isAscii (joinItems comma (a :: r)) = true := isAscii_join _ h4
       simp only [hasc, Bool.not_true, Bool.false_eq_true, if_false]
-      rw [← hb, splitAux_join comma items h3 hne]
-      simp [h2, pure, Except.pure]
+      rw [splitAux_join comma _ h3 (by simp)]
+      simp [h2, pure, Except.pure, hlen]
 
 theorem composeLanguageTags_eq_map (tags : List (List Bytes)) (h : tags.all tagOk = true) :
     composeLanguageTags tags = .ok (tags.map (joinItems hyphen)) := by
